@@ -76,3 +76,84 @@ func c15Client(r *Result) {
 	_ = s.Shutdown(ctx)
 	<-done
 }
+
+// c15ClientSlowWrite: "every wait for a response is preceded by a fresh read deadline" - fresh at the moment the wait BEGINS. A
+// request of 32 MiB (larger than what the socket buffers swallow) is sent to a peer that begins to read it only 1.5 x
+// ReadTimeout after the connection is up and answers the moment it has read it; WriteTimeout is generous. Writing the request
+// takes longer than ReadTimeout, the wait for the response a few milliseconds: the Send must succeed (time spent writing is
+// WriteTimeout's business). With ReadTimeout zero it must succeed as well.
+func c15ClientSlowWrite(r *Result) {
+	const R = 600 * time.Millisecond
+	ca := tlsm.NewCA("c15w-ca")
+	for _, rt := range []time.Duration{R, 0} {
+		key := fmt.Sprintf("client slow write: ReadTimeout=%v WriteTimeout=30s, 32 MiB request, peer starts reading after %v and answers at once", rt, R+R/2)
+		crumb("C15 " + key)
+		r.eval(key, true)
+		ln, err := tls.Listen("tcp", "127.0.0.1:0", &tls.Config{Certificates: []tls.Certificate{tlsm.Leaf(ca, tlsm.LeafOpts{Host: "127.0.0.1"})}, MinVersion: tls.VersionTLS12})
+		if err != nil {
+			r.find(Finding{Kind: "disagreement", What: "cannot listen", Input: err.Error()})
+			return
+		}
+		peerErr := make(chan error, 1)
+		go func() {
+			c, err := ln.Accept()
+			if err != nil {
+				peerErr <- err
+				return
+			}
+			defer c.Close()
+			_ = c.SetDeadline(time.Now().Add(60 * time.Second))
+			if err := c.(*tls.Conn).Handshake(); err != nil {
+				peerErr <- err
+				return
+			}
+			time.Sleep(R + R/2)
+			hdr := make([]byte, 8)
+			if _, err := readFull(c, hdr); err != nil {
+				peerErr <- err
+				return
+			}
+			l := int(hdr[4])<<24 | int(hdr[5])<<16 | int(hdr[6])<<8 | int(hdr[7])
+			buf := make([]byte, 1<<20)
+			for l > 0 {
+				n := len(buf)
+				if n > l {
+					n = l
+				}
+				k, err := c.Read(buf[:n])
+				l -= k
+				if err != nil {
+					peerErr <- err
+					return
+				}
+			}
+			resp := kmip.Response{Header: kmip.ResponseHeader{Version: kmip.ProtocolVersion{Major: 1, Minor: 4}, TimeStamp: time.Now(), BatchCount: 1},
+				BatchItems: []kmip.ResponseBatchItem{{Operation: kmip.OPERATION_DECRYPT, ResultStatus: kmip.RESULT_STATUS_SUCCESS, ResponsePayload: kmip.DecryptResponse{UniqueIdentifier: "k", Data: []byte{1}}}}}
+			peerErr <- kmip.NewEncoder(c).Encode(&resp)
+		}()
+		ccfg := &tls.Config{RootCAs: ca.Pool}
+		kmip.DefaultClientTLSConfig(ccfg)
+		cl := &kmip.Client{Endpoint: ln.Addr().String(), TLSConfig: ccfg, ReadTimeout: rt, WriteTimeout: 30 * time.Second}
+		if err := cl.Connect(); err != nil {
+			r.find(Finding{Kind: "disagreement", What: "Client cannot connect in the slow-write scenario", Input: key, Actual: err.Error()})
+			ln.Close()
+			continue
+		}
+		t0 := time.Now()
+		_, err = cl.Send(kmip.OPERATION_DECRYPT, kmip.DecryptRequest{UniqueIdentifier: "k", Data: make([]byte, 32<<20)})
+		took := time.Since(t0)
+		var pe error
+		select {
+		case pe = <-peerErr:
+		case <-time.After(5 * time.Second):
+			pe = fmt.Errorf("peer still busy")
+		}
+		if err != nil {
+			r.find(Finding{Kind: "violation", What: "a response that arrived right after the request had been written was reported as timed out: the time spent WRITING the request was charged to ReadTimeout (read deadline not armed afresh before the wait for the response)", Input: key,
+				Expect: "success", Actual: fmt.Sprintf("%v after %v (peer: %v)", err, took.Round(time.Millisecond), pe)})
+		}
+		cl.Close()
+		ln.Close()
+		r.Stats["client-slow-write-scenarios"]++
+	}
+}
